@@ -186,11 +186,40 @@ func (v *VerifC14Conn) DCID() []byte { return []byte{1, 2, 3, 4, 5, 6, 7, 8} }
 // StatsBytesReceived is ConnectionStats.BytesReceived.
 func (v *VerifC14Conn) StatsBytesReceived() uint64 { return v.conn.connStats.BytesReceived.Load() }
 
-// HandleDatagram passes one UDP datagram through the real Conn.handleOnePacket (what the run
-// loop does for every received datagram) and returns ConnectionStats.BytesReceived afterwards.
+// HandleDatagram passes one UDP datagram to the connection the way the transport and the run loop do:
+// Conn.handlePacket (queue) then Conn.handlePackets (which calls handleOnePacket); returns
+// ConnectionStats.BytesReceived afterwards.
 func (v *VerifC14Conn) HandleDatagram(data []byte, rcvTime int64) (statsBytesReceived uint64, err error) {
 	buf := getPacketBuffer()
 	buf.Data = append(buf.Data[:0], data...)
-	_, err = v.conn.handleOnePacket(receivedPacket{buffer: buf, remoteAddr: v.sc.RemoteAddr(), rcvTime: monotime.Time(rcvTime), data: buf.Data}, 0)
+	v.conn.handlePacket(receivedPacket{buffer: buf, remoteAddr: v.sc.RemoteAddr(), rcvTime: monotime.Time(rcvTime), data: buf.Data})
+	_, err = v.conn.handlePackets()
 	return v.conn.connStats.BytesReceived.Load(), err
+}
+
+// QueuedUndecryptable: how many packets wait for keys, and their sizes.
+func (v *VerifC14Conn) QueuedUndecryptable() (sizes []int) {
+	for _, p := range v.conn.undecryptablePackets {
+		sizes = append(sizes, len(p.data))
+	}
+	return sizes
+}
+
+// ReadKeysAvailable does what the connection does when the crypto setup reports new read keys:
+// handleHandshakeEvents (EventReceivedReadKeys) moves the buffered undecryptable packets to
+// undecryptablePacketsToProcess, and the next iteration of the run loop passes each of them to handleOnePacket
+// again (connection.go, "1st: handle undecryptable packets"). The keys themselves do not exist here, so
+// Handshake-/0-RTT-looking packets stay undecryptable and are buffered again, as junk would be.
+func (v *VerifC14Conn) ReadKeysAvailable() (statsBytesReceived uint64, err error) {
+	c := v.conn
+	c.undecryptablePacketsToProcess = append(c.undecryptablePacketsToProcess, c.undecryptablePackets...)
+	c.undecryptablePackets = nil
+	queue := c.undecryptablePacketsToProcess
+	c.undecryptablePacketsToProcess = nil
+	for _, p := range queue {
+		if _, err = c.handleOnePacket(p.receivedPacket, p.datagramID); err != nil {
+			break
+		}
+	}
+	return c.connStats.BytesReceived.Load(), err
 }
